@@ -167,8 +167,105 @@ func splitGroups(r *hx.Rand, segs []string) ([]string, string) {
 	return groups, path
 }
 
+var longNames = []string{"documentation-and-reference-material", "international-shipping-preferences",
+	"quarterly-financial-statements-archive", "x", "administration", "customer-relationship-management-console"}
+
+// longStatic builds a parameter-free path of exactly `total` bytes out of long segment names.
+func longStatic(r *hx.Rand, total int) []string {
+	var segs []string
+	n := 0
+	for n < total-20 {
+		s := hx.Pick(r, longNames)
+		segs = append(segs, s)
+		n += 1 + len(s)
+	}
+	pad := total - n - 1
+	if pad < 1 {
+		pad = 1
+	}
+	segs = append(segs, strings.Repeat("z", pad))
+	return segs
+}
+
+// addLongStatics appends static routes whose full path is 60–70 or 120–135 bytes long (the lengths at
+// which length-indexed shortcuts in front of the static map break), each with a parameter sibling that
+// matches the same path.
+func addLongStatics(r *hx.Rand, script []RegT, method string) []RegT {
+	k := r.Range(1, 3)
+	for i := 0; i < k; i++ {
+		total := r.Range(60, 70)
+		if r.Chance(1, 2) {
+			total = r.Range(120, 135)
+		}
+		if r.Chance(1, 6) {
+			total = hx.Pick(r, []int{63, 64, 65, 127, 128, 129})
+		}
+		segs := longStatic(r, total)
+		script = append(script, RegT{Method: method, Path: "/" + strings.Join(segs, "/")})
+		if r.Chance(2, 3) {
+			sib := append([]string(nil), segs...)
+			sib[len(sib)-1] = ":" + hx.Pick(r, pnames[:3])
+			g := RegT{Method: method, Path: "/" + strings.Join(sib, "/")}
+			if r.Chance(1, 3) {
+				g.Method = hx.Pick(r, Methods)
+			}
+			script = append(script, g)
+		}
+	}
+	return script
+}
+
+// fanOut registers patterns of the script again under other methods, with other constraints or with a
+// static sibling, so that the set of methods matching a path depends on the parameter values (the
+// 405/Allow clause).
+func fanOut(r *hx.Rand, script []RegT) []RegT {
+	k := r.Range(1, 3)
+	for i := 0; i < k; i++ {
+		g := hx.Pick(r, script)
+		full := g.FullPath()
+		if !strings.Contains(full, ":") || strings.Contains(full, " ") {
+			continue
+		}
+		segs := strings.Split(strings.TrimPrefix(full, "/"), "/")
+		m := hx.Pick(r, Methods)
+		switch r.Intn(3) {
+		case 0, 1: // same pattern, another method, its own constraints
+			var cs []ConsT
+			for _, s := range segs {
+				if strings.HasPrefix(s, ":") && r.Chance(2, 3) {
+					c := hx.Pick(r, consPalette)
+					c.Name = s[1:]
+					cs = append(cs, c)
+				}
+			}
+			script = append(script, RegT{Method: m, Path: full, Cons: cs})
+		default: // a static sibling under another method
+			sib := append([]string(nil), segs...)
+			for j, s := range sib {
+				if strings.HasPrefix(s, ":") {
+					sib[j] = hx.Pick(r, []string{"new", "list", "42", "abc"})
+					break
+				}
+			}
+			script = append(script, RegT{Method: m, Path: "/" + strings.Join(sib, "/")})
+		}
+	}
+	return script
+}
+
 // GenScript produces a registration script whose routes overlap on purpose.
 func GenScript(r *hx.Rand, maxRoutes int) []RegT {
+	script := genScriptBase(r, maxRoutes)
+	if r.Chance(1, 3) {
+		script = fanOut(r, script)
+	}
+	if r.Chance(1, 8) {
+		script = addLongStatics(r, script, script[0].Method)
+	}
+	return script
+}
+
+func genScriptBase(r *hx.Rand, maxRoutes int) []RegT {
 	n := r.Range(1, maxRoutes)
 	if r.Chance(1, 3) {
 		n = r.Range(1, 4) // many small sets: the interesting two- and three-route interactions
@@ -396,4 +493,28 @@ func GenReqWide(r *hx.Rand, script []RegT) ReqT {
 		q.Path = "/" + hx.Pick(r, []string{"é", "ü1", "\xff", "日本"}) + rest
 	}
 	return q
+}
+
+
+// GenSession produces 2–6 requests meant for one router instance: several of them instantiate the same
+// pattern with different values under methods with and without a route, so that consecutive 404/405
+// answers on one pattern have different right answers.
+func GenSession(r *hx.Rand, script []RegT) []ReqT {
+	n := r.Range(2, 6)
+	out := make([]ReqT, 0, n)
+	g := hx.Pick(r, script)
+	other := hx.Pick(r, Methods)
+	for i := 0; i < n; i++ {
+		switch r.Intn(5) {
+		case 0:
+			out = append(out, GenReq(r, script))
+		case 1, 2: // the same pattern again, a method chosen once for the session
+			out = append(out, ReqT{Method: other, Path: instantiate(r, g.FullPath())})
+		case 3:
+			out = append(out, ReqT{Method: hx.Pick(r, Methods), Path: instantiate(r, g.FullPath())})
+		default:
+			out = append(out, ReqT{Method: g.Method, Path: instantiate(r, g.FullPath())})
+		}
+	}
+	return out
 }
